@@ -238,7 +238,7 @@ const PRIORITY: &[&str] = &[
     SIG_REPORT_DIFFERS,
 ];
 
-pub fn most_specific(f: &[(&'static str, String)]) -> Option<&(&'static str, String)> {
+pub fn most_specific<'a>(f: &'a [(&'static str, String)]) -> Option<&'a (&'static str, String)> {
     for p in PRIORITY {
         if let Some(x) = f.iter().find(|(s, _)| s == p) {
             return Some(x);
